@@ -58,6 +58,9 @@ def OpOK (w : W) (op : Op) : Prop :=
   | .sigSetEnum s e =>
     ∀ sg m msg, w.sigs.get s = some sg → sg.parent = some m → w.msgs.get m = some msg →
       e ∉ (msg.layout.filter (· ≠ s)).filterMap (enumOf w)
+  -- KNOWN DEFECT: `NewMessage` accepts a negative size (`msgNew m (-1)`): the message then has
+  -- a negative payload size, `msgCap` and `wf` (0 ≤ cap) fail.  Reproduced by `[.msgNew 1 (-1)]`.
+  | .msgNew _ k => 0 ≤ k
   | _ => True
 
 /-- worlds reachable from the empty one by admissible operations -/
